@@ -30,6 +30,8 @@ pub enum Src {
   Timer(V, u64),
   /// `from_future` over a poll-counting future that is ready at its first poll
   FutureReady(V),
+  /// `from_future_result` over a cloneable future that is ready at its first poll and counts its polls
+  FutureResultReady(Result<V, E>),
   /// `from_iter` over a bounded iterator 0..n that counts how many items were pulled
   CountingIter(usize),
   /// `from_stream` over a stream of n ready items that counts its polls
